@@ -5,6 +5,7 @@ import re
 from . import core
 
 EXT = []
+RING = []
 AWKWARD = {"type", "my-field", "int", "Upper", "a_b", "X-Hdr", "my-p", "$1x", ".5x"}
 
 
@@ -103,8 +104,9 @@ def gen_docs(ctx, quick):
     epa = core.generate(ctx, "InteropGen", "GenInteropEpA.cfg", timeout=900)
     epb = core.generate(ctx, "InteropGen", "GenInteropEpB.cfg", timeout=900)
     pair = core.generate(ctx, "InteropGen", "GenInteropPair.cfg", timeout=900)
-    global EXT
+    global EXT, RING
     EXT = core.generate(ctx, "InteropGen", "GenInteropExt.cfg", timeout=900)
+    RING = core.generate(ctx, "InteropGen", "GenInteropRing.cfg", timeout=900)
     rnd = core.generate(ctx, "InteropGen", "GenInteropRandom.cfg", num=40 if quick else 400, depth=20, seed=ctx.seed * 100 + 11)
     awk = core.generate(ctx, "InteropGen", "GenInteropRandomAwk.cfg", num=20 if quick else 200, depth=20, seed=ctx.seed * 100 + 12)
     return field, epa, epb, pair, rnd, awk
@@ -237,6 +239,9 @@ def check_c11(ctx):
             add(d["openapi"], "openapi3", "yaml", pathlevel="yes")
     # extension chains (only XSD can say "extends")
     for d in EXT:
+        add(d["xsd"], "xsd")
+    # types that refer to one another in a cycle of two or three
+    for d in RING:
         add(d["xsd"], "xsd")
     for i, d in enumerate(rnd + awk):
         add(d["openapi"], "swagger", "yaml")
